@@ -16,7 +16,7 @@ PROPS = {
     'C20': {'units': ['gad', 'quot', 'fri', 'periodic'], 'kani': [], 'only': {'fri': r'evaluate_polynomial|circuit_exp_by_constant|lemma_'}},
     'C07': {'units': ['fri', 'shape', 'fold', 'openin'], 'kani': [], 'only': {'shape': r'verify_fri_circuit'}, 'exclude': r'possible (bit shift|arithmetic)'},
     'C05': {'units': ['chal'], 'kani': [], 'exclude': r'canonical_width'},
-    'C06': {'units': ['bind'], 'kani': []},
+    'C06': {'units': ['bind', 'pchain'], 'kani': []},
     'C17': {'units': ['cache'], 'kani': []},
     'C10': {'units': ['sched'], 'kani': []},
     'C18': {'units': ['dsu'], 'kani': []},
@@ -224,7 +224,10 @@ META['C06'] = {
             '(the whole tracked state on the extension path; the rate part plus the in-table chain on the D=1 path) and every buffered output is pinned, i.e. its value is fixed in every accepted proof by '
             'constants, public values and relation-checked operations over pinned operands; hence every sampled target is pinned to everything observed before it. The bus exposure of one permutation row is '
             'a contract transcribed from add_poseidon_perm_inner / the executor; the four add_poseidon{1,2}_perm_for_challenger{,_base} wrappers, the four duplexing back ends, duplexing, init, observe, sample '
-            'and clear are proved against it. The tests only run honest witnesses, which cannot distinguish a pinned target from a free one.',
+            'and clear are proved against it. The tests only run honest witnesses, which cannot distinguish a pinned target from a free one. '
+            'Unit pchain (table side of the in-table capacity chaining): the compact D=1 chaining block of poseidon2-circuit-air and poseidon1-circuit-air eval asserts EXACTLY rate chaining under the per-limb helper, '
+            'capacity chaining (+ length tag) under cap_chain_enable*(1-merkle), Merkle left/right placement, the un-gated chain-start pin of the capacity (row 0 included: fix F6) and the index-sum accumulation; '
+            'corollaries: a chained sponge row receives the previous capacity, a chain start has the tag-only capacity (what unit bind assumes of the table).',
     'note': 'Assumed (trusted): which outputs of a permutation row are created on the witness bus (ext_perm_post / base_perm_post); taint rules of builder primitives, recompose and the base-coefficient '
             'decomposition; D=1 path: no foreign sponge-table row between two permutations of one challenger; configuration geometry fits WIDTH/RATE; permutation tables enabled. '
             'KNOWN FINDING C06-ext-capacity-unbound: on the D>1 path the capacity limbs handed back by the wrappers are not exposed, so capacity_outputs_pinned fails (forged proof in findings/).',
